@@ -333,6 +333,11 @@ class C06(Check):
             return None
         return None
 
+    def twin_args(self, words):
+        # blockparts <header> <miner tx> <its id> <listed hashes>: the third argument is the id of the second, supplied by
+        # the generator (the model is stated for any hash function and takes the id as given)
+        return [1, 4] if words[0] == "blockparts" else None
+
     def neighbours(self, case, rng):
         w = case.line.split(" ")
         out = []
